@@ -7,8 +7,9 @@
 (*   text          the symbols the driver put into the tag                  *)
 (*   lv            stock-Django values of leaves: [kind ("leaf"/"render"),  *)
 (*                 canon (symbols that were evaluated), val (typed value)]  *)
-(*   probe, comp   what the probe tag / the component received:             *)
-(*                 [o |-> "values" | "tse" | "exc:<Class>" | "malformed",   *)
+(*   probe, comp, short, slot   what each receiver (TagArgs!Paths) got:     *)
+(*                 [o |-> "values" | "tse" | "exc:<Class>" | "malformed" |  *)
+(*                  "n/a" (receiver not applicable to this list),          *)
 (*                  args, kwargs (sequence of [k, v]), flags]               *)
 (* Values are typed: int i, str s, float s, bool b, none, list items, dict  *)
 (* items (sequence of [k, v]), other s.                                     *)
@@ -79,27 +80,31 @@ Mismatch(obs, outcomes, expect, path, lv) ==
   ELSE IF ~Same(L(EvItems(expect.args, 1, lv)), L(obs.args)) THEN "args"
   ELSE IF ~Same(D(Dedupe(EvEntries(expect.kwargs, 1, lv))), D(obs.kwargs)) THEN "kwargs"
   ELSE IF path = "probe" /\ expect.flags # {obs.flags[i] : i \in 1..Len(obs.flags)} THEN "flags"
+  ELSE IF path = "slot" /\ Len(obs.args) # 0 THEN "args"
   ELSE ""
 
 PathStatus(e, obs, path) ==
+  IF ~PathApplies(e.args, path) THEN (IF obs.o = "n/a" THEN "ok" ELSE "bad:path_not_applicable") ELSE
   LET inv == Invalid(e.args)
       m == Mismatch(obs, Outcomes(e.args, e.style), IF inv THEN NoValues ELSE Denote(e.args), path, e.lv) IN
   IF m = "" THEN "ok"
   ELSE LET ds == Devs(e.args)
-           hits == {k \in 1..Len(ds) : /\ ds[k].path \in {"both", path}
+           hits == {k \in 1..Len(ds) : /\ path \in ds[k].paths
                                        /\ Mismatch(obs, ds[k].outcomes, ds[k].expect, path, e.lv) = ""} IN
        IF hits # {} THEN "dev:" \o ds[CHOOSE k \in hits : TRUE].name
        ELSE IF inv THEN "bad:invalid_not_rejected" ELSE "bad:" \o m
 
 Verdict(e) ==
   <<IF Text(e.args, e.style) = e.text THEN "ok" ELSE "bad:layout",
-    PathStatus(e, e.probe, "probe"), PathStatus(e, e.comp, "comp")>>
+    PathStatus(e, e.probe, "probe"), PathStatus(e, e.comp, "comp"),
+    PathStatus(e, e.short, "short"), PathStatus(e, e.slot, "slot")>>
 
 TrInit == tid = 1
 TrNext == /\ tid <= Len(Traces)
           /\ LET v == Verdict(Traces[tid]) IN
-             IF v = <<"ok", "ok", "ok">> THEN PrintT("ACCEPT " \o ToString(Traces[tid].id))
-             ELSE PrintT("REJECT " \o ToString(Traces[tid].id) \o " " \o v[1] \o " " \o v[2] \o " " \o v[3])
+             IF \A i \in 1..Len(v) : v[i] = "ok" THEN PrintT("ACCEPT " \o ToString(Traces[tid].id))
+             ELSE PrintT("REJECT " \o ToString(Traces[tid].id) \o " " \o v[1] \o " " \o v[2] \o " " \o v[3]
+                         \o " " \o v[4] \o " " \o v[5])
           /\ tid' = tid + 1
 TrSpec == TrInit /\ [][TrNext]_tid
 =============================================================================
